@@ -7,8 +7,26 @@ import (
 
 	logac "berty.tech/go-ipfs-log/accesscontroller"
 	"berty.tech/go-ipfs-log/identityprovider"
+	"github.com/decred/dcrd/dcrec/secp256k1/v4/ecdsa"
 	"github.com/libp2p/go-libp2p/core/crypto"
 )
+
+// canonicalSignature accepts only the low-S form of an ECDSA signature, the one
+// every signer of this library produces. (r, s) and (r, n-s) are both valid for
+// the same message and key: accepting both lets anybody turn a signed entry into
+// a second, differently hashed entry with the same content.
+func canonicalSignature(sig []byte) error {
+	parsed, err := ecdsa.ParseDERSignature(sig)
+	if err != nil {
+		return fmt.Errorf("unable to parse signature: %w", err)
+	}
+
+	if s := parsed.S(); s.IsOverHalfOrder() {
+		return fmt.Errorf("signature is not in canonical (low-S) form")
+	}
+
+	return nil
+}
 
 // VerifyEntryAuthor checks that an entry was written by the identity it names:
 // the entry must be signed with that identity's key and the identity block
@@ -30,6 +48,12 @@ func VerifyEntryAuthor(e logac.LogEntry, p identityprovider.Interface) error {
 		}
 	}
 
+	if signed, ok := e.(interface{ GetSig() []byte }); ok {
+		if err := canonicalSignature(signed.GetSig()); err != nil {
+			return fmt.Errorf("entry signature: %w", err)
+		}
+	}
+
 	if identity.Type != "orbitdb" {
 		if p == nil || p.GetType() != identity.Type {
 			return fmt.Errorf("identity of type %q cannot be verified", identity.Type)
@@ -40,6 +64,12 @@ func VerifyEntryAuthor(e logac.LogEntry, p identityprovider.Interface) error {
 
 	if identity.Signatures == nil {
 		return fmt.Errorf("identity is not signed")
+	}
+
+	for _, sig := range [][]byte{identity.Signatures.ID, identity.Signatures.PublicKey} {
+		if err := canonicalSignature(sig); err != nil {
+			return fmt.Errorf("identity signature: %w", err)
+		}
 	}
 
 	pubKey, err := crypto.UnmarshalSecp256k1PublicKey(identity.PublicKey)
